@@ -35,6 +35,7 @@
 #include <stdio.h>
 #include <stdlib.h>
 #include <string.h>
+#include <sys/stat.h>
 #include <sys/syscall.h>
 #include <sys/types.h>
 #include <unistd.h>
@@ -290,6 +291,17 @@ ssize_t read(int fd, void *buf, size_t count) {
     case F_SHORT:
         if (count > 1 && arg >= 1) {
             size_t c = (size_t)arg < count ? (size_t)arg : count - 1;
+            /* a reduced count that is still >= what a regular file has left would not shorten
+             * anything (a reader asking for 64 KiB of an 8 KiB file): scale it into the remainder.
+             * A logged (replayed) count is always below the remainder and passes unchanged. */
+            {
+                struct stat st;
+                off_t pos;
+                if (fstat(fd, &st) == 0 && S_ISREG(st.st_mode) && (pos = lseek(fd, 0, SEEK_CUR)) >= 0 && st.st_size > pos) {
+                    size_t rem = (size_t)(st.st_size - pos);
+                    if (rem > 1 && c >= rem) c = 1 + c % (rem - 1);
+                }
+            }
             log_fault('r', n, f, (long)c);
             return real_read(fd, buf, c);
         }
